@@ -59,7 +59,7 @@ Proof.
       * apply IH; [exact Hvd|]. unfold node_is_dir. rewrite Hgc. reflexivity.
       * cbn [sr_parent sr_child sr_err]. split; [intros p [= <-]; exact Hpd|]. split; [discriminate|].
         intros Ha. rewrite (check_permission_admin _ _ _ Ha) in Hcp. discriminate Hcp.
-    + destruct (pi_is_last pi1); cbn [sr_parent sr_child sr_err];
+    + destruct (pi_is_last pi1); [|destruct (v_os v)]; cbn [sr_parent sr_child sr_err];
         (split; [intros p [= <-]; exact Hpd|]); (split; [try discriminate; intros c0 _ [= <-]; congruence|reflexivity]).
     + cbv zeta. destruct (pi_is_last pi1 && slmode_eqb slm SlLstat).
       { cbn [sr_parent sr_child sr_err]. split; [intros p [= <-]; exact Hpd|]. split; [intros c0 _ [= <-]; congruence|reflexivity]. }
